@@ -23,6 +23,8 @@ fn io_pairs(reduced: bool) -> Vec<(It, OutIt)> {
         for i in [2usize, 5, 7, 8] { for o in [1usize, 2] { v.push((ins[i].clone(), outs[o].clone())); } }
     } else {
         for i in &ins { for o in &outs { v.push((i.clone(), o.clone())); } }
+        // input sets whose alternatives are groups / matrices (input only; as environment items `{p,a}` stands for sets)
+        for i in [It::Set(vec![grp_c(), ipa("a")]), It::Set(vec![It::Mat("[+hi]", vec![(F_HIGH, true)]), ipa("p")]), It::Set(vec![grp_v()])] { for o in &outs { v.push((i.clone(), o.clone())); } }
     }
     v.push((ins[8].clone(), OutIt::Set(vec![OutIt::Ipa("t", seg("t")), OutIt::Ipa("i", seg("i"))])));
     v
@@ -136,7 +138,7 @@ fn run_box(r: &mut Report, name: &str, rules: Vec<BasicRule>, words: &[CW]) {
 
 pub fn run() -> i32 {
     let mut r = Report::new("C03");
-    r.rule = "rules IN > OUT [/ ENV] [| ENV] over IN in {p,t,a,i,[+cons],C,V,[+hi],{p,a},[-hi]}, OUT in {t,i,[+voice],[-hi],{t,i}}, ENV = before x after item sequences over the 10 segment items and $, # outermost; every rule x every word of the word space in every syllabification; real parser + Rule::apply vs reference interpreter, structural comparison. Non-trivial = the reference interpreter rewrites at least one position.".into();
+    r.rule = "rules IN > OUT [/ ENV] [| ENV] over IN in {p,t,a,i,[+cons],C,V,[+hi],{p,a},[-hi]} and the input-only sets {C,a}, {[+hi],p}, {V}, OUT in {t,i,[+voice],[-hi],{t,i}}, ENV = before x after item sequences over the 10 segment items and $, # outermost; every rule x every word of the word space in every syllabification; real parser + Rule::apply vs reference interpreter, structural comparison. Non-trivial = the reference interpreter rewrites at least one position.".into();
     r.assumptions.push("reference interpreter harness/src/refint.rs written from doc.md; `$` = any syllable edge incl. word edges, `#` = word edge, both zero-width".into());
     r.assumptions.push("cases with two equal adjacent segments inside a syllable at any stage are skipped (length notation; excluded by the property)".into());
     let w44 = word_space(&inventory(4), 4);
